@@ -392,7 +392,7 @@ O(id='INTEGER_compare.b3', props=['C04', 'C01'], kind='bounded', entry='h_INTEGE
 
 # ---------------------------------------------------------------- C18: open types (runtime half)
 OTY = dict(harness='harness/h_open_type.c', units=[SK + 'OPEN_TYPE.c', SK + 'OPEN_TYPE_oer.c', SK + 'constr_CHOICE.c'],
-           fp_restrict=[(r'type_selector\)$', ['selector']), (r'ber_decoder\)$', ['stub_ber']), (r'oer_decoder\)$', ['stub_oer']), (r'free_struct\)$', ['stub_free', 'choice_free'])])
+           fp_restrict=[(r'type_selector\)$', ['selector']), (r'ber_decoder\)$', ['stub_ber']), (r'oer_decoder\)$', ['stub_oer', 'stub_oer2']), (r'free_struct\)$', ['stub_free', 'choice_free', 'stub_free2'])])
 O(id='OPEN_TYPE_ber_get', props=['C18', 'C14', 'C04'], kind='bounded', entry='h_OPEN_TYPE_ber_get', functions=['OPEN_TYPE_ber_get', 'CHOICE_variant_set_presence', '_fetch_present_idx', '_set_present_idx'],
   unwind=20, cbmc=['--no-malloc-may-fail'], bound='one open type member (inline CHOICE of two variants), selector and selected type are recording stubs; every selector result, every inner decoder outcome',
   min_props=50, timeout=600, **OTY)
@@ -428,6 +428,17 @@ O(id='ber_skip_length.b6', props=['C03', 'C04', 'C05', 'C15'], kind='bounded', e
 # ---------------------------------------------------------------- C06: SET OF member ordering
 O(id='_el_buf_cmp', props=['C06'], kind='bounded', entry='h_el_buf_cmp', harness='harness/h_el_buf_cmp.c', units=[SK + 'constr_SET_OF.c'],
   functions=['_el_buf_cmp'], unwind=8, bound='every triple of encoded members of at most 4 octets with 0..7 unused bits', min_props=30, timeout=600)
+
+# ---------------------------------------------------------------- OCTET STRING / BIT STRING over BER
+for _b, _n in ((0, 'OCTET_STRING'), (1, 'BIT_STRING')):
+    O(id=_n + '_decode_ber.b7', props=['C04', 'C03', 'C14', 'C15'], kind='bounded', entry='h_OCTET_STRING_decode_ber', harness='harness/h_octet_string_ber.c',
+      units=[SK + 'OCTET_STRING.c', SK + 'BIT_STRING.c'], functions=['OCTET_STRING_decode_ber', 'OCTET_STRING_free'], defines=['VF_BITS=%d' % _b],
+      unwind=10, cbmc=['--unwindset', 'ber_fetch_length.0:9,ber_fetch_tag.0:9', '--malloc-may-fail', '--malloc-fail-null', '--memory-leak-check'],
+      bound='every input of at most 7 octets (primitive, constructed, indefinite, nested); every allocation may fail', min_props=100, timeout=2400, mem_gb=24, tier='experimental')
+
+O(id='oer_open_type_get', props=['C14', 'C18', 'C04'], kind='bounded', entry='h_oer_open_type_get', functions=['oer_open_type_get'],
+  unwind=20, cbmc=['--malloc-may-fail', '--malloc-fail-null', '--memory-leak-check'], bound='input of at most 12 octets, inner decoder outcome arbitrary, value storage provided by the caller or allocated by the inner decoder',
+  min_props=40, timeout=600, **OTY)
 
 UNVERIFIED = {
  'C07': ['asn_encode_to_buffer / asn_encode_to_new_buffer / uper_encode_to_buffer / uper_encode_to_new_buffer with a UPER type encoder: obligations exist (tier experimental) but do not discharge (symbolic-length memcpy of the 32-octet bit scratch space runs out of memory); asn_encode with UPER is covered',
